@@ -143,6 +143,16 @@ Proof.
     + intros rid re Hr T. apply nth_error_snoc_inv in Hr. destruct Hr as [Hr|(-> & ->)]; [exact (A rid re Hr T)|].
       simpl in T. discriminate.
   - exact I.
+  - (* ODeltaChecked *)
+    destruct (nth_error (labels s) l) as [ll|]; [|exact I].
+    destruct (nth_error (labels s) b) as [lb|]; [|exact I].
+    destruct (size_ok size); simpl; [|exact I].
+    destruct (match ll with Some (ls, lo) => _ | None => None end); simpl; [destruct (_ || _); exact I|].
+    destruct I as [N L A]. constructor; auto.
+    + intros p Hp. destruct (L p Hp) as (re & H1 & Rest). exists re. split; [|exact Rest].
+      rewrite nth_error_app1; [exact H1|]. apply nth_error_Some. congruence.
+    + intros rid re Hr T. apply nth_error_snoc_inv in Hr. destruct Hr as [Hr|(-> & ->)]; [exact (A rid re Hr T)|].
+      simpl in T. discriminate.
 Qed.
 
 Lemma absinv_init : absinv init.
